@@ -130,6 +130,9 @@ package reflect
 //@     && ((t.T == tLIST || t.T == tSET) ==> !t.IsPointer)
 //@     && ((t.T == tSTRING && !t.IsPointer) ==> (t.Tag == defs.T_string || t.Tag == defs.T_binary))
 //@     && (!t.SimpleType ==> t.AppendFunc != nil && t.EncodedSizeFunc != nil)
+//@     && (!t.IsPointer ==> ((t.T == tBOOL || t.T == tBYTE) ==> t.Size == 1) && (t.T == tI16 ==> t.Size == 2) && (t.T == tI32 ==> t.Size == 4)
+//@           && ((t.T == tI64 || t.T == tDOUBLE || t.T == tENUM || t.T == tMAP) ==> t.Size == 8)
+//@           && (t.T == tSTRING ==> t.Size == (t.Tag == defs.T_binary ? 24 : 16)) && ((t.T == tLIST || t.T == tSET) ==> t.Size == 24))
 
 // consequences of the tables (proved, not assumed): every wire type a descriptor can carry has a
 // positive minimum wire size, and for fixed-size kinds that minimum is the exact size.
@@ -141,7 +144,7 @@ package reflect
 //@     && (!t.IsPointer && t.V.IsPointer ==> t.V.T == tSTRUCT)
 //@     && (t.IsPointer ==> !t.V.IsPointer && t.T == t.V.T && t.WT == t.V.WT && t.FixedSize == t.V.FixedSize && t.V.T != tMAP && t.V.T != tLIST && t.V.T != tSET)
 
-//@ axiom wfT_K: forall t *tType :: {wfT(t), t.K} wfT(t) && t.T == tMAP ==> t.K != nil && wfT(t.K) && (t.K.IsPointer ==> t.K.T == tSTRUCT)
+//@ axiom wfT_K: forall t *tType :: {wfT(t), t.K} wfT(t) && t.T == tMAP ==> t.K != nil && wfT(t.K) && (t.K.IsPointer ==> t.K.T == tSTRUCT) && t.K.Tag != defs.T_binary && t.K.T != tMAP && t.K.T != tLIST && t.K.T != tSET
 
 //@ axiom wfT_Sd: forall t *tType :: {wfT(t), t.Sd} wfT(t) && t.T == tSTRUCT ==> t.Sd != nil && wfSD(t.Sd)
 
@@ -227,6 +230,8 @@ package reflect
 
 // layout overlays that are only ever placed over raw memory
 //@ const rawtypes = sliceHeader rvtype hmap iface hackMapIter
+// runtime/reflect structs whose fields verified code never touches: one opaque word each
+//@ const opaquetypes = mapIter reflect.Value sync.Pool
 //@ const MAXIN = 1099511627776
 //@ const MAXALLOC = 288230376151711744
 
@@ -431,12 +436,17 @@ package reflect
 //@     (t.T == tLIST || t.T == tSET) ? WL(t.V, m, ld64(m, p), lcount(m, p), W_lhdr(s, t.V.WT, lcount(m, p))) :
 //@     WM(t, m, ld64(m, p), mcount(m, p), W_mhdr(s, t.K.WT, t.V.WT, mcount(m, p)))
 
+// unfoldings of W by kind, proved once from the definition (spare every caller the case chain)
+//@ lemma W_map: forall t *tType, m Mem, p Int, s BSeq :: {W(t, m, p, s)} t.T == tMAP ==> W(t, m, p, s) == WM(t, m, ld64(m, p), mcount(m, p), W_mhdr(s, t.K.WT, t.V.WT, mcount(m, p)))
+//@ lemma W_list: forall t *tType, m Mem, p Int, s BSeq :: {W(t, m, p, s)} (t.T == tLIST || t.T == tSET) ==> W(t, m, p, s) == WL(t.V, m, ld64(m, p), lcount(m, p), W_lhdr(s, t.V.WT, lcount(m, p)))
+//@ lemma W_struct: forall t *tType, m Mem, p Int, s BSeq :: {W(t, m, p, s)} t.T == tSTRUCT ==> W(t, m, p, s) == WS(t.Sd, m, p, s)
+
 // slot q holds the value, or a pointer to it when t.IsPointer
 //@ spec func Wslot(t *tType, m Mem, q Int, s BSeq) BSeq = t.IsPointer ? W(t, m, ld64(m, q), s) : W(t, m, q, s)
 
 // element counts as written in the headers (32-bit truncation of the live length)
 //@ spec func lcount(m Mem, p Int) Int = ld64(m, p) == 0 ? 0 : u32(ld64(m, p + 8))
-//@ spec func mcount(m Mem, p Int) Int = ld64(m, p) == 0 ? 0 : u32(nmaplen(ld64(m, p)))
+//@ spec func mcount(m Mem, p Int) Int = ld64(m, p) == 0 ? 0 : nmaplen(ld64(m, p))
 
 // struct at b: nil -> lone STOP; else fields in declaration (id) order, unknown bytes, STOP
 //@ spec rec func WS(sd *structDesc, m Mem, b Int, s BSeq) BSeq = b == 0 ? snoc(s, 0) : snoc(Wunk(sd, m, b, WF(sd, m, b, len(sd.fields), s)), 0)
@@ -597,7 +607,7 @@ package reflect
 //@   ensures itMap(it) == rvMapPtr(rv) && itPos(it) == 0
 //@ trusted func reflect.(*mapIter).Next(m *mapIter) (k unsafe.Pointer, v unsafe.Pointer)
 //@   requires m != nil
-//@   modifies fields(m)
+//@   modifies *m
 //@   ensures itMap(*m) == old(itMap(*m))
 //@   ensures old(itPos(*m)) < nmaplen(old(itMap(*m))) ==> itPos(*m) == old(itPos(*m)) + 1 && k == entryK(old(itMap(*m)), old(itPos(*m))) && v == entryV(old(itMap(*m)), old(itPos(*m))) && k != nil && v != nil
 //@   ensures old(itPos(*m)) >= nmaplen(old(itMap(*m))) ==> itPos(*m) == old(itPos(*m)) && k == nil && v == nil
@@ -615,3 +625,64 @@ package reflect
 //@   loop 0 invariant c02_entries: n == u32(mcount(M, p) - itDone(it, kp)) && b == WM(t, M, ld64(p), itDone(it, kp), W_mhdr(old(b), t.K.WT, t.V.WT, mcount(M, p)))
 //@   loop 0 hint c02_step: b == Wslot(t.V, M, head(vp), Wslot(t.K, M, head(kp), head(b)))
 //@   loop 0 hint c02_pos: itDone(it, kp) == head(itDone(it, kp)) + 1 && head(kp) == entryK(ld64(p), head(itDone(it, kp))) && head(vp) == entryV(ld64(p), head(itDone(it, kp)))
+
+// --- map fast paths (append_map_fast.go): 64 functions from two templated contracts ---------
+
+// row conditions: what each fast path assumes about the key / value descriptor
+//@ macro kc.BOOL = t.K.T == tBOOL && !t.K.IsPointer
+//@ macro kc.I08 = t.K.T == tBYTE && !t.K.IsPointer
+//@ macro kc.I16 = t.K.T == tI16 && !t.K.IsPointer
+//@ macro kc.I32 = t.K.T == tI32 && !t.K.IsPointer
+//@ macro kc.I64 = t.K.T == tI64 && !t.K.IsPointer
+//@ macro kc.ENUM = t.K.T == tENUM && !t.K.IsPointer
+//@ macro kc.STRING = t.K.T == tSTRING && !t.K.IsPointer
+//@ macro kc.Other = !t.K.SimpleType
+//@ macro vc.BOOL = t.V.T == tBOOL && !t.V.IsPointer
+//@ macro vc.I08 = t.V.T == tBYTE && !t.V.IsPointer
+//@ macro vc.I16 = t.V.T == tI16 && !t.V.IsPointer
+//@ macro vc.I32 = t.V.T == tI32 && !t.V.IsPointer
+//@ macro vc.I64 = (t.V.T == tI64 || t.V.T == tDOUBLE) && !t.V.IsPointer
+//@ macro vc.ENUM = t.V.T == tENUM && !t.V.IsPointer
+//@ macro vc.STRING = t.V.T == tSTRING && t.V.Tag == defs.T_string
+//@ macro vc.Other = !t.V.SimpleType
+
+// layout of the real Go map behind an unsafe cast *(*map[K']V')(p): the static key type must hash
+// like the real key type and key / value slots must have the real sizes (hash classes: 1 plain
+// memory, 2 string, 3 float64, 4 anything else)
+//@ spec func hashClass(k *tType) Int = k.T == tDOUBLE ? 3 : (k.T == tSTRING ? 2 : ((k.IsPointer || !k.SimpleType) ? 4 : 1))
+//@ spec func maplayout(t *tType, kc Int, ks Int, vs Int) bool = hashClass(t.K) == kc && t.K.Size == ks && t.V.Size == vs
+
+// native range over the re-typed map
+//@ family appendMap_$K_$V(t *tType, b []byte, p unsafe.Pointer) (r []byte, err error) for K in BOOL I08 I16 I32 I64 ENUM STRING, V in BOOL I08 I16 I32 I64 ENUM STRING
+//@   abstract b, r
+//@   requires c02_row: wfT(t) && t.T == tMAP && p != nil && $(kc.$K) && $(vc.$V)
+//@   modifies nothing
+//@   ensures c02_value: err == nil ==> r == W(t, M, p, b)
+//@   loop 0 invariant c02_iter: 0 <= $iter0 && $iter0 <= nmaplen(ld64(p)) && ld64(p) != 0
+//@   loop 0 invariant c02_entries: n == u32(mcount(M, p) - $iter0) && b == WM(t, M, ld64(p), $iter0, W_mhdr(old(b), t.K.WT, t.V.WT, mcount(M, p)))
+
+// iterator-based fast paths (key or value goes through AppendFunc)
+//@ macro itinv = itMap(it) == ld64(p) && 0 <= itDone(it, kp) && itPos(it) <= nmaplen(ld64(p)) && (kp == nil ==> itPos(it) == nmaplen(ld64(p))) && (kp != nil ==> itPos(it) >= 1 && kp == entryK(ld64(p), itPos(it) - 1) && vp == entryV(ld64(p), itPos(it) - 1) && vp != nil)
+//@ macro itentries = n == u32(mcount(M, p) - itDone(it, kp)) && b == WM(t, M, ld64(p), itDone(it, kp), W_mhdr(old(b), t.K.WT, t.V.WT, mcount(M, p)))
+//@ macro itstep = b == Wslot(t.V, M, head(vp), Wslot(t.K, M, head(kp), head(b)))
+//@ macro itpos = itDone(it, kp) == head(itDone(it, kp)) + 1 && head(kp) == entryK(ld64(p), head(itDone(it, kp))) && head(vp) == entryV(ld64(p), head(itDone(it, kp)))
+
+//@ family appendMap_$K_Other(t *tType, b []byte, p unsafe.Pointer) (r []byte, err error) for K in BOOL I08 I16 I32 I64 ENUM STRING Other
+//@   abstract b, r
+//@   requires c02_row: wfT(t) && t.T == tMAP && p != nil && $(kc.$K) && $(vc.Other)
+//@   modifies nothing
+//@   ensures c02_value: err == nil ==> r == W(t, M, p, b)
+//@   loop 0 invariant c02_iter: $(itinv)
+//@   loop 0 invariant c02_entries: $(itentries)
+//@   loop 0 hint c02_step: $(itstep)
+//@   loop 0 hint c02_pos: $(itpos)
+
+//@ family appendMap_Other_$V(t *tType, b []byte, p unsafe.Pointer) (r []byte, err error) for V in BOOL I08 I16 I32 I64 ENUM STRING
+//@   abstract b, r
+//@   requires c02_row: wfT(t) && t.T == tMAP && p != nil && $(kc.Other) && $(vc.$V)
+//@   modifies nothing
+//@   ensures c02_value: err == nil ==> r == W(t, M, p, b)
+//@   loop 0 invariant c02_iter: $(itinv)
+//@   loop 0 invariant c02_entries: $(itentries)
+//@   loop 0 hint c02_step: $(itstep)
+//@   loop 0 hint c02_pos: $(itpos)
